@@ -76,7 +76,7 @@ fn any_level() -> LogLevel {
 
 // Span ids: from an ARBITRARY sequence counter, every id handed out is non-zero and differs from the previous
 // one, also when the logger re-enters Core and opens a span while handling the Open record.
-// @verif prop=C20 tier=quick timeout=500 mem=16 unwind=12 unwindset=drop_glue::<\[.*Stakker\)>\]>\.0$:1
+// @verif prop=C20 tier=quick timeout=1200 mem=16 unwind=12 unwindset=drop_glue::<\[.*Stakker\)>\]>\.0$:1
 // @enc Core::log_span_open Core::log_span_close Core::log Core::log_check Stakker::set_logger LogFilter::{all,allows,from}
 // @sym the id sequence counter (any u64, including the wrap at 2^64); parent id; whether the logger re-enters
 // @bound two span opens (+ one nested open by the logger) and one close
@@ -121,7 +121,7 @@ fn lg_span_ids() {
 }
 
 // Filtering: a record is delivered exactly when the installed filter allows its level, and log_check agrees.
-// @verif prop=C20 tier=quick timeout=500 mem=16 unwind=12 unwindset=drop_glue::<\[.*Stakker\)>\]>\.0$:1
+// @verif prop=C20 tier=quick timeout=1200 mem=16 unwind=12 unwindset=drop_glue::<\[.*Stakker\)>\]>\.0$:1
 // @enc Core::log Core::log_check Stakker::set_logger Stakker::set_log_filter LogFilter::{new,all,allows,from,bitor}
 // @sym installed filter: any union of up to 3 levels of the 9; record level: any of the 9
 // @bound one record
